@@ -74,7 +74,7 @@ def rand_dag(rng, ncells, max_bits=80, fanin=0.5, pool_leafs=3):
                 refs.append(cells[rng.randrange(len(cells))])
             else:
                 refs.append(cells[-1 - rng.randrange(min(3, len(cells)))])
-        bits = some_bits(rng, max_bits) + rc.u(i, 20)  # make cells distinct
+        bits = (some_bits(rng, max_bits) + rc.u(i, 20))[-1023:]  # make cells distinct
         try:
             c = rc.RC(bits, refs)
         except rc.RefError:
@@ -141,6 +141,15 @@ def rand_hash(rng):
 
 
 def exotic_tree(rng, budget=12, max_level=3, depth=0):
+    for _ in range(30):
+        try:
+            return _exotic_tree(rng, budget, max_level, depth)
+        except rc.RefError:
+            continue
+    return rc.RC(some_bits(rng, 40))
+
+
+def _exotic_tree(rng, budget=12, max_level=3, depth=0):
     """random spec-valid tree whose root has level <= max_level.  Pruned branches replace *generated* subtrees,
     so their stored hashes are genuine; raw pruned branches with random hashes are used as well."""
     if budget <= 1 or depth > 8:
@@ -181,7 +190,7 @@ def raw_pruned(rng, max_level):
     m = rng.randint(1, (1 << max_level) - 1)
     n = rc.popcount(m)
     bits = rc.u(rc.PRUNED, 8) + rc.u(m, 8) + ''.join(rc.bytes_to_bits(rand_hash(rng)) for _ in range(n)) + \
-        ''.join(rc.u(rng.choice([0, 1, 5, 1022, rng.randrange(1023)]), 16) for _ in range(n))
+        ''.join(rc.u(rng.choice([0, 1, 5, 300, rng.randrange(1023)]), 16) for _ in range(n))
     return rc.RC(bits, (), rc.PRUNED)
 
 
